@@ -45,4 +45,13 @@ theorem C08_cluster_self_alive_unless_left (w0 : World) (ops : List COp) (hfresh
   intro X hX me hme
   exact ((h.2.1 X hX).2.2.1 me hme).2.2.2.1
 
+/-- **C08_cluster_leaver_stays_gone.** In every reachable cluster state, a node that has called Leave does
+not hold its own record alive: neither replayed alive claims about it, nor accusations, nor its own
+queued messages or later UpdateNode calls bring it back on the leaver itself. -/
+theorem C08_cluster_leaver_stays_gone (w0 : World) (ops : List COp) (hfresh : Fresh w0) (hlen : ops.length < u32) :
+    ∀ X ∈ (w0.run ops).nodes, X.hasLeft = true → ∀ me, selfRec X = some me → me.st ≠ .alive := by
+  have h := grun_inv ops w0 0 (gfresh_inv w0 hfresh) (by omega)
+  intro X hX hl me hme
+  exact ((h.2.1 X hX).2.2.1 me hme).2.2.2.2.2 hl
+
 end Swim.Cluster
